@@ -100,7 +100,7 @@ Definition ex_scall : scall :=
      s_name := n_f;
      s_sub := [{| d_key := k_x; d_kind := KScalar; d_default := VTok 0 |};
                {| d_key := k_l; d_kind := KList; d_default := VList [4]%Z |}];
-     s_subenv := [(k_x, VTok 3)];
+     s_subenv := [(k_x, VTok 3)]; s_envsub := None;
      s_subargv := [AAsg (k_l, Append (VTok 9))] |}.
 
 (* ---- the subcommand level: statement and three witnesses of the unchanged code's deviations --------------- *)
@@ -125,7 +125,7 @@ Definition mk_parent (p : parser) (pats : list (list (str * doc))) (envcfg : opt
 Definition shadowed_scall : scall :=
   {| s_parent := mk_parent [{| d_key := k_k; d_kind := KScalar; d_default := VTok 1 |}] [] (Some [(n_f :: k_x, Set_ (VTok 8))]) [];
      s_name := n_f; s_sub := [{| d_key := k_x; d_kind := KScalar; d_default := VTok 2 |}];
-     s_subenv := [(k_x, VTok 11)]; s_subargv := [] |}.
+     s_subenv := [(k_x, VTok 11)]; s_envsub := None; s_subargv := [] |}.
 
 Lemma shadowed_facts :
   wf_scall shadowed_scall = true /\ scall_class shadowed_scall = 3%N /\
@@ -144,7 +144,7 @@ Definition section_append_scall : scall :=
   {| s_parent := mk_parent [{| d_key := k_l; d_kind := KList; d_default := VList [1]%Z |}] [] None
                            [ACfg [(n_f :: k_l, Append (VList [7]%Z))]];
      s_name := n_f; s_sub := [{| d_key := k_l; d_kind := KList; d_default := VList [4]%Z |}];
-     s_subenv := []; s_subargv := [] |}.
+     s_subenv := []; s_envsub := None; s_subargv := [] |}.
 
 Lemma section_append_facts :
   wf_scall section_append_scall = true /\ scall_class section_append_scall = 5%N /\
@@ -162,7 +162,7 @@ Qed.
 Definition dcf_scall : scall :=
   {| s_parent := mk_parent [{| d_key := k_k; d_kind := KScalar; d_default := VTok 1 |}] [[([97%N], [(k_k, Set_ (VTok 6))])]] None [];
      s_name := n_f; s_sub := [{| d_key := k_x; d_kind := KScalar; d_default := VTok 2 |}];
-     s_subenv := []; s_subargv := [] |}.
+     s_subenv := []; s_envsub := None; s_subargv := [] |}.
 
 Lemma dcf_facts :
   wf_scall dcf_scall = true /\ scall_class dcf_scall = 4%N /\
@@ -174,3 +174,47 @@ Proof.
   exists dcf_scall. destruct dcf_facts as (W & C & F & O). split; [exact C|].
   eapply sub_refute; eauto. discriminate.
 Qed.
+
+(* class 6: a default config file "f: {x: 9}", F_SUBCOMMAND=f (the subcommand the command line names as well),
+   parse_args(['f']): the code gives f.x = 2 — the subcommand's DEFAULT — the documented order 9 (a default
+   config file comes after the defaults in the source code) *)
+Definition envsub_scall : scall :=
+  {| s_parent := mk_parent [{| d_key := k_k; d_kind := KScalar; d_default := VTok 1 |}]
+                           [[([97%N], [(n_f :: k_x, Set_ (VTok 9))])]] None [];
+     s_name := n_f; s_sub := [{| d_key := k_x; d_kind := KScalar; d_default := VTok 2 |}];
+     s_subenv := []; s_envsub := Some n_f; s_subargv := [] |}.
+
+Lemma envsub_facts :
+  wf_scall envsub_scall = true /\ scall_class envsub_scall = 6%N /\
+  final_values_sub envsub_scall = [VTok 1; VTok 9] /\ sub_outcome envsub_scall = Some [VTok 1; VTok 2].
+Proof. vm_compute. repeat split; reflexivity. Qed.
+
+Lemma envsub_resets_refuted : exists sc, scall_class sc = 6%N /\ ~ sub_precedence_statement sc.
+Proof.
+  exists envsub_scall. destruct envsub_facts as (W & C & F & O). split; [exact C|].
+  eapply sub_refute; eauto. rewrite F. discriminate.
+Qed.
+
+(* ---- PREFIX_SUBCOMMAND is not a source of values unless it names the chosen subcommand while the environment is read ---- *)
+Definition with_envsub (sc : scall) (v : option name) : scall :=
+  {| s_parent := s_parent sc; s_name := s_name sc; s_sub := s_sub sc; s_subenv := s_subenv sc;
+     s_envsub := v; s_subargv := s_subargv sc |}.
+
+Lemma envsub_inert sc v :
+  (match v with Some w => name_eqb w (s_name sc) | None => false end && env_is_source (s_parent sc))%bool = false ->
+  pipeline_sub (with_envsub sc v) = pipeline_sub (with_envsub sc None) /\
+  final_values_sub (with_envsub sc v) = final_values_sub (with_envsub sc None).
+Proof.
+  intros H. split; [|reflexivity].
+  unfold pipeline_sub, pipeline_sub_fx. cbn [with_envsub s_parent s_name s_sub s_subenv s_subargv].
+  assert (defaults_and_environ_sub nofix (with_envsub sc v) = defaults_and_environ_sub nofix (with_envsub sc None)) as ->; [|reflexivity].
+  unfold defaults_and_environ_sub. cbn [with_envsub s_parent].
+  rewrite env_enabled_spec. destruct (env_is_source (s_parent sc)) eqn:E; [|reflexivity].
+  rewrite andb_true_r in H. unfold load_env_vars_sub. cbn [with_envsub s_parent s_name s_sub s_subenv s_envsub].
+  destruct v as [w|]; [|reflexivity]. rewrite H. reflexivity.
+Qed.
+
+Example envsub_inert_satisfiable :
+  exists sc v, v <> None /\ wf_scall (with_envsub sc v) = true /\
+    (match v with Some w => name_eqb w (s_name sc) | None => false end && env_is_source (s_parent sc))%bool = false.
+Proof. exists ex_scall, (Some ([122%N], false)). vm_compute. repeat split; congruence. Qed.
